@@ -380,7 +380,7 @@ Local Open Scope N_scope.
 (* roots /1 (local, the origin side) and /2 (remote); /5 is a folder outside the local root *)
 Definition exb_cfg : config :=
   {| rootL := [1]; rootR := [2]; origin := Some false; check_spec := false; no_conflicted := true;
-     conflicted := [99]; step_bound := 10; cov_every_step := true |}.
+     conflicted := [99]; step_bound := 10; cov_every_step := true; declined := [77] |}.
 Definition exb_l0 : tree := [([1], Dir); ([5], Dir); ([1; 3], File 7); ([5; 4], Dir); ([5; 4; 6], File 8)].
 Definition exb_r0 : tree := [([2], Dir); ([2; 3], File 7)].
 (* the user moves the synchronised file /1/3 out of the root, to /5/3 ... *)
